@@ -20,10 +20,22 @@ def CObj.spans (o : Nat) : CObj → List (Nat × Nat)
   | .empty _ => []
   | .rules r rs _ => spansRules (o + 1) r rs
 
+/-- the span of the rule's value token, as the literal-end event carries it -/
+def CRule.vspan (r : CRule) (p : Nat) : Nat × Nat := (r.valOff p, r.valOff p + r.val.length - 1)
+
+/-- the value spans of the rules of an object, in written order -/
+def vspansRules : Nat → CRule → List CRule → List (Nat × Nat)
+  | p, r, [] => [CRule.vspan r p]
+  | p, r, r' :: rs => CRule.vspan r p :: vspansRules (p + r.render.length + 1) r' rs
+
+def CObj.vspans (o : Nat) : CObj → List (Nat × Nat)
+  | .empty _ => []
+  | .rules r rs _ => vspansRules (o + 1) r rs
+
 end SchemaScan
 
 namespace Loader
-open SchemaScan (Ev LexT Ann Cls CRule CObj nlEvs rulesEvs tcEvs annEvs tailEvs spansRules)
+open SchemaScan (Ev LexT Ann Cls CRule CObj nlEvs rulesEvs tcEvs annEvs tailEvs spansRules vspansRules)
 
 /-- the loader's state while it reads the annotation of the (only) node -/
 def annSt (m : Mode) (rs : RS) (nd : Node) (rn : Nat × Nat) (pl : Nat) : St :=
@@ -81,7 +93,7 @@ theorem st_valB (src : Array UInt8) (m : Mode) (hm : m ≠ .default) (nd : Node)
 theorem st_value_emb (src : Array UInt8) (m : Mode) (hm : m ≠ .default) (nd : Node) (rn : Nat × Nat) (pl x y : Nat)
     (h : isEmbName src rn = true) :
     step src (annSt m .value nd rn pl) ⟨.litB, x, y⟩
-      = .ok (annSt m .embLiteral { nd with rules := nd.rules ++ [.inl rn] } rn pl) := by
+      = .ok (annSt m .embLiteral { nd with rules := nd.rules ++ [.inl rn], ruleVals := nd.ruleVals ++ [none] } rn pl) := by
   simp only [isEmbName] at h
   cases m with
   | default => exact absurd rfl hm
@@ -98,7 +110,8 @@ theorem st_value_plain (src : Array UInt8) (m : Mode) (hm : m ≠ .default) (nd 
   | multi => simp only [step, annSt, ruleLoad, h]; rfl
 
 theorem st_emb_litE (src : Array UInt8) (m : Mode) (hm : m ≠ .default) (nd : Node) (rn : Nat × Nat) (pl x y : Nat) :
-    step src (annSt m .embLiteral nd rn pl) ⟨.litE, x, y⟩ = .ok (annSt m .valueEnd nd rn pl) := by
+    step src (annSt m .embLiteral nd rn pl) ⟨.litE, x, y⟩
+      = .ok (annSt m .valueEnd { nd with ruleVals := nd.ruleVals.dropLast ++ [some (x, y)] } rn pl) := by
   cases m with
   | default => exact absurd rfl hm
   | inline => rfl
@@ -106,7 +119,7 @@ theorem st_emb_litE (src : Array UInt8) (m : Mode) (hm : m ≠ .default) (nd : N
 
 theorem st_lit_litE (src : Array UInt8) (m : Mode) (hm : m ≠ .default) (nd : Node) (rn : Nat × Nat) (pl x y : Nat) :
     step src (annSt m .valueLiteral nd rn pl) ⟨.litE, x, y⟩
-      = .ok (annSt m .valueEnd { nd with rules := nd.rules ++ [.inl rn] } rn pl) := by
+      = .ok (annSt m .valueEnd { nd with rules := nd.rules ++ [.inl rn], ruleVals := nd.ruleVals ++ [some (x, y)] } rn pl) := by
   cases m with
   | default => exact absurd rfl hm
   | inline => rfl
@@ -166,19 +179,20 @@ theorem nl_fold (src : Array UInt8) (m : Mode) (hm : m ≠ .default) (rs : RS) (
 theorem rule_fold (src : Array UInt8) (m : Mode) (hm : m ≠ .default) (nd : Node) (rn : Nat × Nat) (pl : Nat)
     (r : CRule) (p : Nat) :
     Fold src (r.evs p) (annSt m .keyOrObjectEnd nd rn pl)
-      (annSt m .keyOrObjectEnd { nd with rules := nd.rules ++ [.inl (CRule.span r p)] } (CRule.span r p) pl) := by
+      (annSt m .keyOrObjectEnd { nd with rules := nd.rules ++ [.inl (CRule.span r p)], ruleVals := nd.ruleVals ++ [some (CRule.vspan r p)] } (CRule.span r p) pl) := by
   have f1 := nl_fold src m hm .keyOrObjectEnd rfl nd rn pl r.b1 p
   have f3 := nl_fold src m hm .valueBegin rfl nd (CRule.span r p) pl r.b3 (r.nameOff p + r.name.length + r.n2 + 1)
-  have f5 := nl_fold src m hm .keyOrObjectEnd rfl { nd with rules := nd.rules ++ [.inl (CRule.span r p)] }
+  have f5 := nl_fold src m hm .keyOrObjectEnd rfl { nd with rules := nd.rules ++ [.inl (CRule.span r p)], ruleVals := nd.ruleVals ++ [some (CRule.vspan r p)] }
     (CRule.span r p) pl r.b4 (r.valOff p + r.val.length)
   have mid : Fold src [⟨.valB, r.valOff p, r.valOff p⟩, ⟨.litB, r.valOff p, r.valOff p⟩,
       ⟨.litE, r.valOff p, r.valOff p + r.val.length - 1⟩, ⟨.valE, r.valOff p, r.valOff p + r.val.length - 1⟩]
       (annSt m .valueBegin nd (CRule.span r p) pl)
-      (annSt m .keyOrObjectEnd { nd with rules := nd.rules ++ [.inl (CRule.span r p)] } (CRule.span r p) pl) := by
+      (annSt m .keyOrObjectEnd { nd with rules := nd.rules ++ [.inl (CRule.span r p)], ruleVals := nd.ruleVals ++ [some (CRule.vspan r p)] } (CRule.span r p) pl) := by
     refine Fold.cons (st_valB src m hm nd _ pl _ _) ?_
     cases h : isEmbName src (CRule.span r p) with
     | true =>
-      exact Fold.cons (st_value_emb src m hm nd _ pl _ _ h) (Fold.cons (st_emb_litE src m hm _ _ pl _ _)
+      exact Fold.cons (st_value_emb src m hm nd _ pl _ _ h) (Fold.cons
+        ((st_emb_litE src m hm _ _ pl _ _).trans (by simp [CRule.vspan]))
         (Fold.one (st_valE src m hm _ _ pl _ _)))
     | false =>
       exact Fold.cons (st_value_plain src m hm nd _ pl _ _ h) (Fold.cons (st_lit_litE src m hm _ _ pl _ _)
@@ -189,19 +203,22 @@ theorem rule_fold (src : Array UInt8) (m : Mode) (hm : m ≠ .default) (nd : Nod
   refine (Fold.trans f1 (Fold.trans key (Fold.trans f3 (Fold.trans mid f5)))).cast ?_ rfl
   simp [CRule.evs, CRule.openEvs, CRule.closeEvs]
 
-def addSpans (nd : Node) (sps : List (Nat × Nat)) : Node := { nd with rules := nd.rules ++ sps.map .inl }
+def addSpans (nd : Node) (sps vsps : List (Nat × Nat)) : Node :=
+  { nd with rules := nd.rules ++ sps.map .inl, ruleVals := nd.ruleVals ++ vsps.map some }
 
-theorem addSpans_cons (nd : Node) (sp : Nat × Nat) (sps : List (Nat × Nat)) :
-    addSpans { nd with rules := nd.rules ++ [.inl sp] } sps = addSpans nd (sp :: sps) := by
+theorem addSpans_cons (nd : Node) (sp vsp : Nat × Nat) (sps vsps : List (Nat × Nat)) :
+    addSpans { nd with rules := nd.rules ++ [.inl sp], ruleVals := nd.ruleVals ++ [some vsp] } sps vsps
+      = addSpans nd (sp :: sps) (vsp :: vsps) := by
   simp [addSpans, List.append_assoc]
 
 theorem rules_fold (src : Array UInt8) (m : Mode) (hm : m ≠ .default) (pl : Nat) : ∀ (rs : List CRule) (r : CRule)
     (nd : Node) (rn : Nat × Nat) (p : Nat),
     ∃ rn', Fold src (rulesEvs p r rs) (annSt m .keyOrObjectEnd nd rn pl)
-      (annSt m .keyOrObjectEnd (addSpans nd (spansRules p r rs)) rn' pl)
-  | [], r, nd, rn, p => ⟨CRule.span r p, (rule_fold src m hm nd rn pl r p).cast rfl (by simp [addSpans, spansRules])⟩
+      (annSt m .keyOrObjectEnd (addSpans nd (spansRules p r rs) (vspansRules p r rs)) rn' pl)
+  | [], r, nd, rn, p =>
+    ⟨CRule.span r p, (rule_fold src m hm nd rn pl r p).cast rfl (by simp [addSpans, spansRules, vspansRules])⟩
   | r' :: rs, r, nd, rn, p => by
-    obtain ⟨rn', ih⟩ := rules_fold src m hm pl rs r' { nd with rules := nd.rules ++ [.inl (CRule.span r p)] }
+    obtain ⟨rn', ih⟩ := rules_fold src m hm pl rs r' { nd with rules := nd.rules ++ [.inl (CRule.span r p)], ruleVals := nd.ruleVals ++ [some (CRule.vspan r p)] }
       (CRule.span r p) (p + r.render.length + 1)
     refine ⟨rn', (Fold.trans (rule_fold src m hm nd rn pl r p) ih).cast rfl ?_⟩
     rw [addSpans_cons]; rfl
@@ -209,24 +226,24 @@ theorem rules_fold (src : Array UInt8) (m : Mode) (hm : m ≠ .default) (pl : Na
 theorem obj_fold (src : Array UInt8) (m : Mode) (hm : m ≠ .default) (pl : Nat) (ob : CObj) (o : Nat) (nd : Node)
     (rn : Nat × Nat) :
     ∃ rn', Fold src (ob.evs o) (annSt m .keyOrObjectEnd nd rn pl)
-      (annSt m .commentTextBegin (addSpans nd (ob.spans o)) rn' pl) := by
+      (annSt m .commentTextBegin (addSpans nd (ob.spans o) (ob.vspans o)) rn' pl) := by
   cases ob with
   | empty b0 =>
     refine ⟨rn, ?_⟩
     have f1 := nl_fold src m hm .keyOrObjectEnd rfl nd rn pl b0 (o + 1)
     have f2 := Fold.one (st_objE src m hm nd rn pl o (o + 1 + b0.length))
-    exact (Fold.trans f1 f2).cast (by simp [CObj.evs]) (by simp [CObj.spans, addSpans])
+    exact (Fold.trans f1 f2).cast (by simp [CObj.evs]) (by simp [CObj.spans, CObj.vspans, addSpans])
   | rules r rs tc =>
     obtain ⟨rn', f1⟩ := rules_fold src m hm pl rs r nd rn (o + 1)
     have f2 : Fold src (tcEvs (o + 1 + (SchemaScan.renderRules r rs).length) tc)
-        (annSt m .keyOrObjectEnd (addSpans nd (spansRules (o + 1) r rs)) rn' pl)
-        (annSt m .keyOrObjectEnd (addSpans nd (spansRules (o + 1) r rs)) rn' pl) := by
+        (annSt m .keyOrObjectEnd (addSpans nd (spansRules (o + 1) r rs) (vspansRules (o + 1) r rs)) rn' pl)
+        (annSt m .keyOrObjectEnd (addSpans nd (spansRules (o + 1) r rs) (vspansRules (o + 1) r rs)) rn' pl) := by
       cases tc with
       | none => exact Fold.nil _ _
       | some b5 => exact nl_fold src m hm .keyOrObjectEnd rfl _ rn' pl b5 _
-    have f3 := Fold.one (st_objE src m hm (addSpans nd (spansRules (o + 1) r rs)) rn' pl o
+    have f3 := Fold.one (st_objE src m hm (addSpans nd (spansRules (o + 1) r rs) (vspansRules (o + 1) r rs)) rn' pl o
       (o + 1 + (SchemaScan.renderRules r rs ++ SchemaScan.renderTc tc).length))
-    exact ⟨rn', (Fold.trans f1 (Fold.trans f2 f3)).cast (by simp [CObj.evs]) (by simp [CObj.spans])⟩
+    exact ⟨rn', (Fold.trans f1 (Fold.trans f2 f3)).cast (by simp [CObj.evs]) (by simp [CObj.spans, CObj.vspans])⟩
 
 /-- new-line events outside annotations keep the node table -/
 theorem nl_fold_default (src : Array UInt8) : ∀ (evs : List Ev) (s : St), (∀ e ∈ evs, e.ty = .newLine) →
@@ -252,7 +269,7 @@ theorem annot_fold (src : Array UInt8) (a : Ann) (ha : a.isAnn = true) (tok s1 s
     (s3 tl : List Cls) :
     ∃ st, Fold src (annEvs a tok s1 s2 ob s3 tl) {} st ∧ st.root = some 0 ∧
       st.nodes = #[addSpans { kind := .lit, parent := none, value := some (0, tok.length - 1) }
-        (ob.spans (SchemaScan.objOff tok s1 s2))] := by
+        (ob.spans (SchemaScan.objOff tok s1 s2)) (ob.vspans (SchemaScan.objOff tok s1 s2))] := by
   have hm := @modeOf_ne a
   have f1 : Fold src [⟨.litB, 0, 0⟩, ⟨.litE, 0, tok.length - 1⟩,
       ⟨a.B, SchemaScan.annOff tok s1, SchemaScan.annOff tok s1 + 1⟩] {} _ := st_open src a ha _ _ _
@@ -263,7 +280,8 @@ theorem annot_fold (src : Array UInt8) (a : Ann) (ha : a.isAnn = true) (tok s1 s
   obtain ⟨rn', f4⟩ := obj_fold src (modeOf a) hm 1 ob (SchemaScan.objOff tok s1 s2)
     { kind := .lit, parent := none, value := some (0, tok.length - 1) } (0, 0)
   have f5 := nl_fold src (modeOf a) hm .commentTextBegin rfl
-    (addSpans { kind := .lit, parent := none, value := some (0, tok.length - 1) } (ob.spans (SchemaScan.objOff tok s1 s2)))
+    (addSpans { kind := .lit, parent := none, value := some (0, tok.length - 1) } (ob.spans (SchemaScan.objOff tok s1 s2))
+      (ob.vspans (SchemaScan.objOff tok s1 s2)))
     rn' 1 s3 (SchemaScan.objOff tok s1 s2 + 1 + ob.body.length + 1)
   -- the tail: the closing lexeme, then new-line events only
   have htail : ∃ x y rest, tailEvs (SchemaScan.annOff tok s1) (SchemaScan.tailOff tok s1 s2 ob s3) a tl
@@ -283,12 +301,14 @@ theorem annot_fold (src : Array UInt8) (a : Ann) (ha : a.isAnn = true) (tok s1 s
         · exact nlEvs_ty _ _ e he
   obtain ⟨x, y, rest, hte, hrest⟩ := htail
   have f6 := Fold.one (st_annE src a ha .commentTextBegin
-    (addSpans { kind := .lit, parent := none, value := some (0, tok.length - 1) } (ob.spans (SchemaScan.objOff tok s1 s2)))
+    (addSpans { kind := .lit, parent := none, value := some (0, tok.length - 1) } (ob.spans (SchemaScan.objOff tok s1 s2))
+      (ob.vspans (SchemaScan.objOff tok s1 s2)))
     rn' 1 x y)
   obtain ⟨st, f7, hn, hr⟩ := nl_fold_default src rest
     { annSt (modeOf a) .commentTextBegin
         (addSpans { kind := .lit, parent := none, value := some (0, tok.length - 1) }
-          (ob.spans (SchemaScan.objOff tok s1 s2))) rn' 1 with mode := .default } hrest rfl
+          (ob.spans (SchemaScan.objOff tok s1 s2)) (ob.vspans (SchemaScan.objOff tok s1 s2))) rn' 1 with mode := .default }
+    hrest rfl
   refine ⟨st, ?_, by rw [hr]; rfl, by rw [hn]; rfl⟩
   have := Fold.trans f1 (Fold.trans f2 (Fold.trans f3 (Fold.trans f4 (Fold.trans f5 (Fold.trans f6 f7)))))
   refine this.cast ?_ rfl
